@@ -43,8 +43,12 @@ EXTS = [
 N_EXT = len(EXTS)
 
 
-def _extend_equals_build(i, j, swap) -> bool:
-    a = BASE
+# further bases: root operation types present in different combinations (default root names, no schema block)
+BASE_ROOTS = ["", "type Subscription { s: Int }", "type Mutation { m: Int }", "type Mutation { m: Int } type Subscription { s: Int }"]
+
+
+def _extend_equals_build(i, j, swap, base_k=0) -> bool:
+    a = BASE + BASE_ROOTS[base_k]
     pieces = [EXTS[i]] if i == j else [EXTS[i], EXTS[j]]
     if swap:
         pieces.reverse()
@@ -52,9 +56,9 @@ def _extend_equals_build(i, j, swap) -> bool:
     try:
         together = build_schema(a + "\n" + b)
     except Exception:
-        return None if i != j else False  # two pieces may clash; a single piece is valid by construction
+        return None if (i != j or base_k) else False  # two pieces may clash; a single piece is valid against BASE by construction
     if validate_schema(together):
-        return None if i != j else False
+        return None if (i != j or base_k) else False
     base = build_schema(a)
     before = print_schema(base)
     types_before = dict(base.type_map)
@@ -68,14 +72,14 @@ def _extend_equals_build(i, j, swap) -> bool:
     return not validate_schema(extended)
 
 
-def extend_equals_build(i: int, j: int, swap: bool) -> bool:
+def extend_equals_build(i: int, j: int, swap: bool, *, base: int = 0) -> bool:
     """extend_schema(build(A), B) == build(A + B) for every single extension piece and every pair
     (both orders); the original schema object is left unchanged."""
     i = forked(i, 0, N_EXT)
     j = forked(j, 0, N_EXT)
     assume(i <= j)
     try:
-        r = concrete(_extend_equals_build, i, j, True if swap else False)
+        r = concrete(_extend_equals_build, i, j, True if swap else False, base)
     except Exception:
         return verdict(False)
     assume(r is not None)
@@ -224,7 +228,7 @@ def natural_order_laws(a: str, b: str, c: str) -> bool:
 
 BOUNDS = {
     "quick": [
-        "extend = build: base SDL + every single piece and every pair (both orders) of 16 extension pieces (fields, interfaces, union members, enum values, input fields, directive applications, operation types, new types, new directives); one of 7 definitions moved from base to extension under 3 definition orders",
+        "extend = build: 4 base SDLs (query only / + subscription / + mutation / + both roots) + every single piece and every pair (both orders) of 16 extension pieces (fields, interfaces, union members, enum values, input fields, directive applications, operation types, new types, new directives); one of 7 definitions moved from base to extension under 3 definition orders",
         "no-op extension, self-comparison, sort (no changes, idempotent, really sorted, original untouched) on the 256 family schemas",
         "change detector: 25 single edits x 3 routes for the second schema (direct, sorted, printed and rebuilt)",
         "natural_comparison_key total-order laws on triples of strings <= 2 over {0-9, a-c, _}",
@@ -242,6 +246,9 @@ def obligations(tier):
     B = 1800 if th else 150
     return [
         dict(fn="extend_equals_build", cell={}, budget_s=B),
+        dict(fn="extend_equals_build", cell=dict(base=1), budget_s=B),
+        dict(fn="extend_equals_build", cell=dict(base=2), budget_s=B),
+        dict(fn="extend_equals_build", cell=dict(base=3), budget_s=B),
         dict(fn="moved_definition", cell={}, budget_s=B),
         dict(fn="noop_and_sort", cell={}, budget_s=B),
         dict(fn="single_edits", cell={}, budget_s=B),
@@ -252,6 +259,9 @@ def obligations(tier):
 def corpus():
     for i in range(N_EXT):
         yield "extend_equals_build", {}, dict(i=i, j=i, swap=False)
+    for base in (1, 2, 3):
+        for i in (0, 5, 12):
+            yield "extend_equals_build", dict(base=base), dict(i=i, j=i, swap=False)
     yield "extend_equals_build", {}, dict(i=1, j=3, swap=True)
     yield "extend_equals_build", {}, dict(i=9, j=10, swap=False)
     for k in range(10):
